@@ -54,9 +54,9 @@ def cases(draw, cfg, cached):
         elif kind in ('len', 'iter', 'keys', 'values', 'items', 'popitem', 'clear', 'copy'):
             ops.append([kind, t])
         elif kind == 'popkeys':
-            ops.append([kind, t, draw(st.lists(ki, max_size=3, unique=True))])
+            ops.append([kind, t, draw(st.lists(ki, max_size=3))])      # a key may be listed twice: the second pop of it is a miss
         elif kind == 'popkeysd':
-            ops.append([kind, t, draw(st.lists(ki, max_size=3, unique=True)), draw(vi)])
+            ops.append([kind, t, draw(st.lists(ki, max_size=3)), draw(vi)])
         elif kind in ('upd_map', 'upd_pairs'):
             ops.append([kind, t, [list(x) for x in draw(st.lists(st.tuples(ki, vi), max_size=3))]])
         elif kind == 'upd_kw':
@@ -253,9 +253,13 @@ def _run(case, root):
                     flags['missing_del'] += 1
                 if kind == 'popkeys':
                     ro = outcome(lambda: r.popkeys(ks))
-                    if all(k in m for k in ks):
+                    if len(set(map(repr, ks))) != len(ks):
+                        classes.append('popkeys_repeated_key')
+                    shadow = dict(m)
+                    try:
+                        [shadow.pop(k) for k in ks]          # the sequential pops a dict would do
                         mo = ('ok', [m.pop(k) for k in ks])
-                    else:
+                    except KeyError:
                         mo = ('KeyError', None)      # documented: KeyError, and (all-or-nothing) nothing removed
                 else:
                     dflt = vals[op[3]]
@@ -414,7 +418,7 @@ def _compare(tag, step, op, ro, mo):
     return None
 
 
-REQUIRED_CLASSES = ['overwrite_read', 'missing_del', 'fail_then_ok', 'other_nonempty', 'copied', 'synced', 'cached', 'direct'] + ['cfg:' + c for c in A.ALL]
+REQUIRED_CLASSES = ['popkeys_repeated_key', 'overwrite_read', 'missing_del', 'fail_then_ok', 'other_nonempty', 'copied', 'synced', 'cached', 'direct'] + ['cfg:' + c for c in A.ALL]
 
 
 def _keys_of(case):
